@@ -3,6 +3,7 @@ package main
 import (
 	"bufio"
 	"bytes"
+	"fmt"
 	"io"
 	"strconv"
 	"strings"
@@ -31,6 +32,21 @@ func showParas(ps []control.Paragraph) string {
 
 type rawPara struct {
 	control.Paragraph
+}
+
+// refuser is a Marshallable that can refuse; refusing is a paragraph-carrying struct with such a field
+type refuser struct{ fail bool }
+
+func (r refuser) MarshalControl() (string, error) {
+	if r.fail {
+		return "", fmt.Errorf("this value cannot be marshalled")
+	}
+	return "fine", nil
+}
+
+type refusing struct {
+	control.Paragraph
+	Check refuser `control:"X-Check"`
 }
 
 // chunkReader hands out at most n bytes per Read
@@ -297,6 +313,72 @@ func init() {
 			return "reread-err"
 		}
 		return "same " + strconv.Itoa(len(back))
+	}
+	// wfail text k: the paragraphs become struct values with a field that can refuse to marshal; Encode(slice) in which
+	// element k (>= 1) refuses - an error, after the elements before it may have been written - and then one more Encode
+	// of a good value through the SAME encoder.  Whatever was written must read back as separate paragraphs: some prefix
+	// of the good elements, then the last value - never two values glued into one paragraph.
+	ops["wfail"] = func(a []string) string {
+		ps, err := readAll(arg(a, 0))
+		if err != nil || len(ps) < 2 {
+			return "bad-arg"
+		}
+		k, _ := strconv.Atoi(arg(a, 1))
+		if k < 1 || k >= len(ps) {
+			k = len(ps) - 1
+		}
+		mk := func(p control.Paragraph, fail bool) refusing {
+			c := control.Paragraph{Order: append([]string{}, p.Order...), Values: map[string]string{}}
+			for key, v := range p.Values {
+				c.Values[key] = v
+			}
+			return refusing{Paragraph: c, Check: refuser{fail}}
+		}
+		single := func(v refusing) string {
+			var b bytes.Buffer
+			e, _ := control.NewEncoder(&b)
+			if e.Encode(v) != nil {
+				return "?"
+			}
+			back, err := readAll(b.String())
+			if err != nil || len(back) != 1 {
+				return "?"
+			}
+			return showPara(back[0])
+		}
+		vals := []refusing{}
+		for i, p := range ps {
+			vals = append(vals, mk(p, i == k))
+		}
+		last := mk(ps[0], false)
+		last.Paragraph.Set("X-Last", "yes")
+		var buf bytes.Buffer
+		enc, err := control.NewEncoder(&buf)
+		if err != nil {
+			return "encode-err"
+		}
+		if err := enc.Encode(vals); err == nil {
+			return "no-error"
+		}
+		if err := enc.Encode(last); err != nil {
+			return "second-encode-err"
+		}
+		back, err := readAll(buf.String())
+		if err != nil {
+			return "glued reread-error " + hx(buf.String())
+		}
+		if len(back) == 0 || len(back)-1 > k {
+			return "glued count " + strconv.Itoa(len(back))
+		}
+		for i := 0; i+1 < len(back); i++ {
+			if showPara(back[i]) != single(vals[i]) {
+				return "glued element " + strconv.Itoa(i)
+			}
+		}
+		if showPara(back[len(back)-1]) != single(last) {
+			return "glued last " + hx(buf.String())
+		}
+		return "separate"
 	}
 	ops["wpara"] = func(a []string) string {
 		p := control.Paragraph{Order: []string{}, Values: map[string]string{}}
